@@ -176,6 +176,12 @@ Xlate(s, k) ==
        THEN Ev([e |-> "xlate", s |-> s, k |-> k, out |-> "ok", found |-> s])
        ELSE Ev([e |-> "xlate", s |-> s, k |-> k, out |-> "abort", found |-> ""])
 
+PtrRT(s) ==
+  /\ "ptrrt" \in Acts
+  /\ status[s] = "cr"
+  /\ UNCHANGED vars
+  /\ Ev([e |-> "ptrrt", s |-> s, out |-> "ok"])
+
 Invoke(s, n) ==
   /\ "invoke" \in Acts
   /\ status[s] = "cr"
@@ -192,7 +198,7 @@ FnAddr(s, n) ==
 
 MNext ==
   \/ \E s \in SandboxSet, l \in LibSet, fail \in BOOLEAN : Create(s, l, fail)
-  \/ \E s \in SandboxSet : Destroy(s) \/ Malloc(s) \/ Free(s) \/ Probe(s)
+  \/ \E s \in SandboxSet : Destroy(s) \/ Malloc(s) \/ Free(s) \/ Probe(s) \/ PtrRT(s)
   \/ \E s \in SandboxSet, f \in FuncSet, o \in OwnerSet : Register(s, f, o)
   \/ \E o \in OwnerSet : Unregister(o) \/ ODestroy(o)
   \/ \E o, o2 \in OwnerSet : OMoveC(o, o2) \/ OMoveA(o, o2)
